@@ -20,6 +20,18 @@ def baseline():
         return json.load(fh).get('discharged', {})
 
 
+def owner_of(q, tags, fn_owner):
+    """(function, tag) ownership of DESIGN.md section 1: on the modelcheck call graphs the
+    `frame` obligations belong to C07 and the `safety` obligations to C19"""
+    from ..pyvc import run
+    if q in run.FUNCTIONS.get('ctl', []):
+        if 'frame' in tags:
+            return 'C07'
+        if 'safety' in tags:
+            return 'C19'
+    return fn_owner
+
+
 def run_for(ctx, prop):
     from ..pyvc import run
     fns = run.PROPERTY_FUNCTIONS.get(prop)
@@ -35,7 +47,8 @@ def run_for(ctx, prop):
             ctx.undecided.append('extraction=%s: %s (tool limit, not a defect; the bounded stand-in decides)' % (q, r['extraction_failure']))
             ctx.functions.append({'function': q, 'status': 'extraction failure', 'reason': r['extraction_failure']})
             continue
-        owner = r.get('owner') or prop
+        fn_owner = r.get('owner') or prop
+        owner = fn_owner
         ctx.functions.append({'function': q, 'file': r['file'], 'lines': r['lines'], 'source_sha256_16': r['sha256_16'],
                               'obligations': len(r['obligations']), 'owner': owner,
                               'discharged': sum(1 for o in r['obligations'] if o['status'] == 'discharged'),
@@ -45,6 +58,7 @@ def run_for(ctx, prop):
             if p['name'].endswith(':probe:entry') and p['result'] == 'refutable':
                 raise RuntimeError('contract of %s has a contradictory precondition (vacuity guard)' % q)
         for o in r['obligations']:
+            owner = owner_of(q, o['tags'], fn_owner)
             if owner == prop:
                 ctx.obligation(o['name'], o['status'], o['backend'], o['seconds'], owner, o['tags'], o['detail'])
             if o['status'] != 'discharged':
@@ -87,7 +101,7 @@ def level_for(ctx, prop):
     if len(ctx.obligations) == 0:
         return 'exploration'
     # vacuity guard on the number of obligations
-    expected = sum(1 for n, meta in base.items() if meta.get('owner') == prop)
+    expected = sum(1 for n, meta in base.items() if owner_of(n.split(':')[0], meta.get('tags', []), meta.get('owner')) == prop)
     failed_fns = set(f['function'] for f in ctx.functions if f.get('status') == 'extraction failure')
     if expected and not failed_fns and len(ctx.obligations) < expected * 0.5:
         raise RuntimeError('only %d obligations generated for %s, the baseline has %d (vacuity guard)' % (len(ctx.obligations), prop, expected))
